@@ -16,8 +16,8 @@ MANIFEST = {
             'occurred actions.',
     'note': 'Trusted: engine, vf.symcbor, independent reader, z3. Security-failure outcome is exercised in C12.',
     'ref': '5 C19'}
-BOUNDS = {'quick': dict(flags='all 32 combinations', report_to='dtn:none | real', outcomes=6),
-          'thorough': dict(flags='all 32 combinations', report_to='dtn:none | real', outcomes=6, subject='CRC types 0/1/2, sequence number in [0,2^64), a fragment as subject of forward/delete outcomes')}
+BOUNDS = {'quick': dict(flags='all 32 combinations', report_to='dtn:none | real', outcomes=8),
+          'thorough': dict(flags='all 32 combinations', report_to='dtn:none | real', outcomes=8, subject='CRC types 0/1/2, sequence number in [0,2^64), a fragment as subject of forward/delete outcomes')}
 ASSUMPTIONS = [
     'one subject bundle per run',
     'forwarded status is judged after the send (the implementation records it after send_bundle returns)',
@@ -27,7 +27,7 @@ QUICK_VALIDATE = 3
 
 NODE = 'dtn://node/'
 FL = dict(deletion=0x40000, delivery=0x20000, forwarding=0x10000, reception=0x4000, time=0x40)
-OUTCOMES = ['deliver', 'forward', 'fragment', 'delete', 'noroute', 'fwdfail']
+OUTCOMES = ['deliver', 'forward', 'fragment', 'delete', 'noroute', 'fwdfail', 'nofrag', 'fraginc']
 
 
 def cases(tier):
@@ -49,13 +49,14 @@ def harness(case, tier):
     c = cur()
     oc = case['outcome']
     w = BpWorld(node_id=NODE, ctr_cap=12)
-    dest = {'deliver': 'dtn://node/app', 'forward': 'dtn://far/app', 'fragment': 'dtn://far/app',
+    dest = {'deliver': 'dtn://node/app', 'forward': 'dtn://far/app', 'fragment': 'dtn://far/app', 'nofrag': 'dtn://far/app',
+            'fraginc': 'dtn://node/app',
             'delete': 'dtn://bad/app', 'noroute': 'dtn://nowhere/app', 'fwdfail': 'dtn://lost/app'}[oc]
     w.add_rx_route(r'^dtn://node/.+', 'deliver')
     w.add_rx_route(r'^dtn://far/.*', 'forward')
     w.add_rx_route(r'^dtn://bad/.*', 'delete')
     w.add_rx_route(r'^dtn://lost/.*', 'forward')      # but there is no transmit route for it
-    w.add_tx_route(r'^dtn://far/.*', mtu=160 if oc == 'fragment' else None)
+    w.add_tx_route(r'^dtn://far/.*', mtu=160 if oc in ('fragment', 'nofrag') else None)
     w.add_tx_route(r'^dtn://rep/.*', mtu=None)
     bits = c.choose(32, 'report-flags')
     names = ['deletion', 'delivery', 'forwarding', 'reception', 'time']
@@ -64,8 +65,8 @@ def harness(case, tier):
     report_to = 'dtn://rep/svc' if case['rep'] == 'real' else 'dtn:none'
     t = c.sym_int('t', 2 ** 32, 2 ** 39)
     s = c.sym_int('s', 0, 2 ** 64 - 1 if case.get('wide') else 23)
-    plen = 300 if oc == 'fragment' else 5
-    payload = c.sym_blob('payload', plen)
+    plen = 300 if oc in ('fragment', 'nofrag') else 5
+    payload = bytes(range(1, plen + 1)) if oc == 'fraginc' else c.sym_blob('payload', plen)
     ct = case.get('crc', 2)
     pri = dict(flags=flags, crc_type=ct, destination=dest, source='dtn://src/app', report_to=report_to,
                create_ts=[t, s], lifetime=3600000)
@@ -73,9 +74,22 @@ def harness(case, tier):
         pri['flags'] = flags | 1
         pri['fragment_offset'] = c.sym_int('foff', 0, 2 ** 32)
         pri['total_adu_length'] = pri['fragment_offset'] + plen + c.sym_int('rest', 0, 2 ** 32)
+    if oc == 'nofrag':
+        # larger than the route MTU but marked do-not-fragment: it is forwarded as it is, not deleted
+        pri['flags'] = pri['flags'] | 0x4
+    if oc == 'fraginc':
+        # the subject arrives as two fragments which disagree about the total length: nothing is delivered
+        pri['flags'] = pri['flags'] | 1
+        pri['fragment_offset'] = 0
+        pri['total_adu_length'] = 30
     wire = rfc9171.sealed_bundle(pri, [dict(type=1, num=1, flags=0, crc_type=ct, data=payload)])
     w.recv(wire)
     w.run_idle(40)
+    if oc == 'fraginc':
+        pri2 = dict(pri, fragment_offset=5, total_adu_length=40)
+        w.recv(rfc9171.sealed_bundle(pri2, [dict(type=1, num=1, flags=0, crc_type=ct, data=bytes(range(6, 11)))]))
+        w.run_idle(40)
+        c.prove(len(w.delivered) == 0, 'inconsistent-fragments-deliver-nothing', detail=len(w.delivered))
     esc = w.escaped()
     c.prove(not esc, 'no-callback-exception', detail=[repr(e) for (_s, e) in esc])
 
@@ -83,12 +97,15 @@ def harness(case, tier):
     for d in w.sent:
         b = rfc9171.decode_bundle(d)
         (reports if bool((b['primary']['flags'] & 2) != 0) else others).append(b)
-    occurred = {'reception': True, 'delivery': oc == 'deliver', 'forwarding': oc in ('forward', 'fragment'),
+    occurred = {'reception': True, 'delivery': oc == 'deliver', 'forwarding': oc in ('forward', 'fragment', 'nofrag'),
                 'deletion': oc in ('delete', 'fwdfail')}
-    if oc in ('forward', 'fragment'):
+    if oc in ('forward', 'fragment', 'nofrag'):
         c.prove(len(others) >= 1, 'subject-was-forwarded', detail=len(others))
     want_any = case['rep'] == 'real' and any(req[n] and occurred[n] for n in occurred)
-    if oc == 'noroute':
+    if oc == 'fraginc':
+        # fragments waiting for reassembly: reception may be reported (per fragment), nothing else has occurred
+        c.prove(len(reports) <= 2, 'at-most-one-report-per-fragment', detail=len(reports))
+    elif oc == 'noroute':
         # nothing is done with the bundle; a reception report is allowed but the property does not demand one
         c.prove(len(reports) <= 1, 'at-most-one-report', detail=len(reports))
         if not want_any:
@@ -121,6 +138,6 @@ def harness(case, tier):
             elif req[n] and occurred[n]:
                 c.prove(False, 'report-asserts-every-requested-action-that-occurred[%s,%s]' % (n, oc), detail=st)
         c.prove(not (bool(st['forwarding'][0]) and bool(st['deletion'][0])), 'never-forwarded-and-deleted')
-        if oc in ('forward', 'fragment'):
+        if oc in ('forward', 'fragment', 'nofrag'):
             c.prove(not bool(st['deletion'][0]), 'forwarded-bundle-not-reported-deleted[%s]' % oc, detail=st)
     return {'class': 'report' if reports else 'no-report', 'n': len(reports), 'others': len(others)}
